@@ -590,7 +590,7 @@ theorem deep_object_roundtrip (fl : Flavour) (name : Str) (req : Bool)
     | cons a b => exact ⟨a, b, rfl⟩
   have hq : (deepEnc name (kv0 :: rest)).isEmpty = false := by simp [deepEnc]
   have hcl := deepClash_pairs (kv0 :: rest)
-  simp only [decodeStyled, earlyAbsent, hq, decodeValue, decodeLeaf, queryDeepFlat, queryDeep, hdp]
+  simp only [decodeStyled, earlyAbsent, hq, decodeValue, decodeLeaf, deepReq_deepEnc fl name hn _ hk, queryDeepFlat, queryDeep, hdp]
   simp only [deepPairs, List.map_cons] at hcl ⊢
   simp only [hcl]
   cases hb : buildDeep fl.prim (([kv0.1], [kv0.2]) :: List.map (fun kv => ([kv.1], [kv.2])) rest)
@@ -711,6 +711,85 @@ theorem decodeValue_singleton (fl : Flavour) (c : Cell) (name : Str) (req : Bool
     simp only [ho] at h1 h2
     subst h2
     simp [decodeValue, decAllOf, decAnyOf, decOneOf, ho, h1]
+
+/-! ### compositions with several alternatives: the loops at the level of decodeStyledParameter, and complete trips -/
+
+/-- anyOf: the first alternative whose decoder yields a value gives the parameter's value; what the earlier ones
+answered (nil, or an error — dropped by the loop) only feeds `found` -/
+theorem decodeStyled_anyOf_first (fl : Flavour) (c : Cell) (name : Str) (req : Bool) (r : Req) (hea : earlyAbsent c r = false)
+    (pre : List Leaf) (l : Leaf) (post : List Leaf)
+    (hpre : ∀ x ∈ pre, (decodeLeaf fl c name r x).val.isNil = true) (hl : (decodeLeaf fl c name r l).val.isNil = false) :
+    decodeStyled fl c name req r (.anyOf (pre ++ l :: post)) =
+      ⟨(decodeLeaf fl c name r l).val, pre.any (fun x => (decodeLeaf fl c name r x).found) || (decodeLeaf fl c name r l).found, none⟩ := by
+  simp only [decodeStyled, hea, Bool.false_eq_true, if_false, decodeValue]
+  simpa using decAnyOf_first (decodeLeaf fl c name r) req l post hl pre false hpre
+
+/-- oneOf: the last alternative whose decoder yields a value gives the parameter's value, without error -/
+theorem decodeStyled_oneOf_last (fl : Flavour) (c : Cell) (name : Str) (req : Bool) (r : Req) (hea : earlyAbsent c r = false)
+    (pre : List Leaf) (l : Leaf) (post : List Leaf)
+    (hpost : ∀ x ∈ post, (decodeLeaf fl c name r x).val.isNil = true) (hl : (decodeLeaf fl c name r l).val.isNil = false) :
+    (decodeStyled fl c name req r (.oneOf (pre ++ l :: post))).val = (decodeLeaf fl c name r l).val ∧
+    (decodeStyled fl c name req r (.oneOf (pre ++ l :: post))).err = none ∧
+    (decodeStyled fl c name req r (.oneOf (pre ++ l :: post))).found =
+      (pre ++ l :: post).any (fun x => (decodeLeaf fl c name r x).found) := by
+  simp only [decodeStyled, hea, Bool.false_eq_true, if_false, decodeValue]
+  have h := decOneOf_last (decodeLeaf fl c name r) req l hl post hpost pre false none
+  refine ⟨h.1, h.2, ?_⟩
+  simpa using decOneOf_found (decodeLeaf fl c name r) req (pre ++ l :: post) false none
+
+/-- allOf: when every alternative decodes the request to a value, the last alternative's value is the parameter's -/
+theorem decodeStyled_allOf_all (fl : Flavour) (c : Cell) (name : Str) (req : Bool) (r : Req) (hea : earlyAbsent c r = false)
+    (pre : List Leaf) (l : Leaf)
+    (hpre : ∀ x ∈ pre, (decodeLeaf fl c name r x).val.isNil = false ∧ (decodeLeaf fl c name r x).err = none)
+    (hl : (decodeLeaf fl c name r l).val.isNil = false ∧ (decodeLeaf fl c name r l).err = none) :
+    decodeStyled fl c name req r (.allOf (pre ++ [l])) =
+      ⟨(decodeLeaf fl c name r l).val, pre.any (fun x => (decodeLeaf fl c name r x).found) || (decodeLeaf fl c name r l).found, none⟩ := by
+  simp only [decodeStyled, hea, Bool.false_eq_true, if_false, decodeValue]
+  simpa using decAllOf_all (decodeLeaf fl c name r) l hl pre false ⟨.nil, false, none⟩ hpre
+
+/-- allOf: the first alternative that fails to decode decides: its error is the parameter's error -/
+theorem decodeStyled_allOf_stop (fl : Flavour) (c : Cell) (name : Str) (req : Bool) (r : Req) (hea : earlyAbsent c r = false)
+    (pre : List Leaf) (l : Leaf) (post : List Leaf)
+    (hpre : ∀ x ∈ pre, (decodeLeaf fl c name r x).val.isNil = false ∧ (decodeLeaf fl c name r x).err = none)
+    (hl : (decodeLeaf fl c name r l).val.isNil = true ∨ (decodeLeaf fl c name r l).err.isSome = true) :
+    decodeStyled fl c name req r (.allOf (pre ++ l :: post)) =
+      ⟨(decodeLeaf fl c name r l).val, pre.any (fun x => (decodeLeaf fl c name r x).found) || (decodeLeaf fl c name r l).found,
+        (decodeLeaf fl c name r l).err⟩ := by
+  simp only [decodeStyled, hea, Bool.false_eq_true, if_false, decodeValue]
+  simpa using decAllOf_stop (decodeLeaf fl c name r) l post hl pre false ⟨.nil, false, none⟩ hpre
+
+/-- a complete multi-alternative trip, no side condition left: `anyOf: [integer, array of integer]` in a header.
+Every list of two or more int64 values, comma-joined, fails the first alternative (the comma is no digit; the
+loop drops that ParseError) and is decoded by the second to exactly the list that was sent — for every name,
+explode flag and `required` -/
+theorem header_anyOf_int_or_array_end_to_end (name : Str) (ex req : Bool)
+    (is : List Int) (h2 : 2 ≤ is.length) (hr : ∀ i ∈ is, -(2 ^ 63 : Int) ≤ i ∧ i < (2 ^ 63 : Int)) :
+    decodeStyled impl ⟨.header, .simple, ex⟩ name req { header := some [joinL [','] (is.map showInt)] }
+      (.anyOf [.prim { t := .integer }, .arr { t := .integer } none none []]) = ⟨.arr (is.map PV.int), true, none⟩ := by
+  have hne : is ≠ [] := by intro e; subst e; simp at h2
+  have harr := header_int_array_end_to_end name ex req none none [] is hne hr
+  have hraw : joinL [','] (is.map showInt) ≠ [] := by
+    apply joinL_ne_nil
+    · simpa using hne
+    · intro x hx
+      obtain ⟨i, _, rfl⟩ := List.mem_map.mp hx
+      exact showInt_ne_nil i
+  have hcomma : ',' ∈ joinL [','] (is.map showInt) := mem_joinL_sep ',' _ (by simpa using h2)
+  have hprim : decodeLeaf impl ⟨.header, .simple, ex⟩ name { header := some [joinL [','] (is.map showInt)] } (.prim { t := .integer }) =
+      ⟨.nil, true, some .parse⟩ := by
+    simp [decodeLeaf, headerPrim, headerRaw, impl, parsePrim, hraw, parseInt10_none_of_comma 64 _ hcomma, optPR, primOut]
+  have hleaf : decodeLeaf impl ⟨.header, .simple, ex⟩ name { header := some [joinL [','] (is.map showInt)] }
+      (.arr { t := .integer } none none []) = ⟨.arr (is.map PV.int), true, none⟩ := by
+    simpa [decodeStyled, earlyAbsent, decodeValue] using harr
+  have h := decodeStyled_anyOf_first impl ⟨.header, .simple, ex⟩ name req { header := some [joinL [','] (is.map showInt)] }
+    (by simp [earlyAbsent]) [.prim { t := .integer }] (.arr { t := .integer } none none []) []
+    (by intro x hx; simp at hx; subst hx; simp [hprim, Val.isNil])
+    (by
+      rw [hleaf]
+      cases is with
+      | nil => contradiction
+      | cons i rest => simp [Val.isNil])
+  simpa [hprim, hleaf] using h
 
 /-! ### parameter names are literal text; absence with other parameters around -/
 
@@ -859,10 +938,11 @@ theorem decodeLeaf_flavour_partial (c : Cell) (name : Str) (r : Req) (l : Leaf) 
     (hdeep : ∀ sp rq, l = .deep sp rq → c.loc = .query ∧ c.style = .deepObject)
     (hck : c.loc = .cookie → c.explode = true → leafIsPrim l = true)
     (hqa : c.loc = .query → c.style = .form → c.explode = true → leafQueryObjAbsent r l = false)
-    (hnp : c.loc = .query → leafNoProps l = false) :
+    (hnp : c.loc = .query → leafNoProps l = false)
+    (hjunk : c.loc = .query → c.style = .deepObject → strictReq name r = r) :
     decodeLeaf impl c name r l = decodeLeaf spec c name r l := by
   obtain ⟨loc, st, ex⟩ := c
-  simp only at hdeep hck hqa hnp
+  simp only at hdeep hck hqa hnp hjunk
   cases l with
   | prim ps =>
     cases loc <;> simp [decodeLeaf, impl, spec, specPrim_eq_parsePrim]
@@ -882,7 +962,9 @@ theorem decodeLeaf_flavour_partial (c : Cell) (name : Str) (r : Req) (l : Leaf) 
         | none => rfl
         | some a => simpa [leafNoProps] using hnp rfl
       split
-      · cases addl with
+      · next hst =>
+        simp only [Flavour.deepReq, Bool.false_eq_true, if_false, if_true, hjunk rfl hst]
+        cases addl with
         | none => rfl
         | some a =>
           simp only
@@ -903,14 +985,15 @@ theorem decodeLeaf_flavour_partial (c : Cell) (name : Str) (r : Req) (l : Leaf) 
   | deep sprops rq =>
     obtain ⟨hl, hst⟩ := hdeep sprops rq rfl
     subst hl hst
-    simp [decodeLeaf, impl, spec, specPrim_eq_parsePrim]
+    simp [decodeLeaf, impl, spec, specPrim_eq_parsePrim, Flavour.deepReq, hjunk rfl rfl]
 
 /-- **the decoders agree**: for every schema of the model — a leaf or an allOf / anyOf / oneOf over leaves — the code's
 decoder returns exactly what the specification's returns (value, found flag, error) on every request outside the three
 decoder-level classes. `hdeep` is the model's domain (nested property schemas are only modelled under style deepObject). -/
 theorem decodeStyled_impl_eq_spec_partial (p : Param) (r : Req)
     (hdeep : ∀ l ∈ schLeaves p.schema, ∀ sp rq, l = .deep sp rq → p.cell.loc = .query ∧ p.cell.style = .deepObject)
-    (h1 : CookieExplode p = false) (h3 : QueryObjAbsent p r = false) (h4 : QueryObjNoProps p = false) :
+    (h1 : CookieExplode p = false) (h3 : QueryObjAbsent p r = false) (h4 : QueryObjNoProps p = false)
+    (h5 : DeepKeyJunk p r = false) :
     decodeStyled impl p.cell p.name p.required r p.schema = decodeStyled spec p.cell p.name p.required r p.schema := by
   obtain ⟨c, name, req, ae, sch⟩ := p
   simp only at hdeep ⊢
@@ -935,6 +1018,9 @@ theorem decodeStyled_impl_eq_spec_partial (p : Param) (r : Req)
       · intro hloc
         simp only [QueryObjNoProps, hloc, decide_true, Bool.true_and] at h4
         exact any_false_mem _ _ h4 l hl
+      · intro hloc hst
+        simp only [DeepKeyJunk, hloc, hst, decide_true, Bool.true_and] at h5
+        exact strictReq_of_noJunk name r h5
     cases sch with
     | leaf l => exact hleaf l (by simp [schLeaves])
     | allOf ls => exact decAllOf_congr _ _ ls _ _ hleaf
@@ -948,10 +1034,10 @@ ValidateParameter is the specification's verdict outside CookieExplode, EnumGoTy
 theorem validate_eq_spec_partial (p : Param) (r : Req) (l : Leaf) (hs : p.schema = .leaf l) (hwf : leafWF l)
     (hdeep : ∀ sp rq, l = .deep sp rq → p.cell.loc = .query ∧ p.cell.style = .deepObject)
     (h1 : CookieExplode p = false) (h2 : EnumGoType p = false) (h3 : QueryObjAbsent p r = false)
-    (h4 : QueryObjNoProps p = false) :
+    (h4 : QueryObjNoProps p = false) (h5 : DeepKeyJunk p r = false) :
     validateParameter p r = validateSpec p r := by
   unfold validateParameter validateSpec
-  rw [decodeStyled_impl_eq_spec_partial p r (by rw [hs]; intro l' hl'; simp [schLeaves] at hl'; subst hl'; exact hdeep) h1 h3 h4]
+  rw [decodeStyled_impl_eq_spec_partial p r (by rw [hs]; intro l' hl'; simp [schLeaves] at hl'; subst hl'; exact hdeep) h1 h3 h4 h5]
   have hg : leafEnumGoType l = false := by
     simpa [EnumGoType, hs, schLeaves, isComposition] using h2
   obtain ⟨c, name, req, ae, sch⟩ := p
@@ -974,10 +1060,11 @@ alternative's enum; that case is tied by the differential run.) -/
 theorem validate_eq_spec_enumfree_partial (p : Param) (r : Req)
     (hfree : (schLeaves p.schema).all leafEnumFree = true)
     (hdeep : ∀ l ∈ schLeaves p.schema, ∀ sp rq, l = .deep sp rq → p.cell.loc = .query ∧ p.cell.style = .deepObject)
-    (h1 : CookieExplode p = false) (h3 : QueryObjAbsent p r = false) (h4 : QueryObjNoProps p = false) :
+    (h1 : CookieExplode p = false) (h3 : QueryObjAbsent p r = false) (h4 : QueryObjNoProps p = false)
+    (h5 : DeepKeyJunk p r = false) :
     validateParameter p r = validateSpec p r := by
   unfold validateParameter validateSpec
-  rw [decodeStyled_impl_eq_spec_partial p r hdeep h1 h3 h4]
+  rw [decodeStyled_impl_eq_spec_partial p r hdeep h1 h3 h4 h5]
   simp only [decide', visitSch_enumFree enumHitImpl deepEqImpl enumHitSpec enumHitSpec p.schema _ hfree]
 
 example : let p : Param := ⟨⟨.query, .pipeDelimited, false⟩, ['p'], true, false,
@@ -992,6 +1079,77 @@ example : let p : Param := ⟨⟨.path, .matrix, true⟩, "id".toList, true, fal
     CookieExplode p = false ∧ EnumGoType p = false ∧ QueryObjAbsent p { path := some ";a=5;b=x;z=7".toList } = false ∧
     QueryObjNoProps p = false ∧ validateParameter p { path := some ";a=5;b=x;z=7".toList } = .accept ∧
     validateParameter p { path := some ";a=7;b=x".toList } = .schema := by decide
+
+/-! ### response headers: the same decoder behind validateResponseHeader -/
+
+/-- the decision of validateResponseHeader once the header decoded without error: accepted iff (found and the decoded
+value — whatever it is, nil included — satisfies the schema) or (not found and not required); missing iff not found
+and required; a schema error iff found and the value does not satisfy the schema -/
+theorem respHeader_decision (fl : Flavour) (visit : Sch → Val → Bool) (name : Str) (st : Sty) (ex required : Bool) (r : Req) (s : Sch)
+    (h : (decodeValue fl ⟨.header, st, ex⟩ name required r s).err = none) :
+    (validateRespHeader fl visit name st ex required r s = .accept ↔
+      ((decodeValue fl ⟨.header, st, ex⟩ name required r s).found = true ∧ visit s (decodeValue fl ⟨.header, st, ex⟩ name required r s).val = true) ∨
+      ((decodeValue fl ⟨.header, st, ex⟩ name required r s).found = false ∧ required = false)) ∧
+    (validateRespHeader fl visit name st ex required r s = .missing ↔
+      ((decodeValue fl ⟨.header, st, ex⟩ name required r s).found = false ∧ required = true)) ∧
+    (validateRespHeader fl visit name st ex required r s = .schema ↔
+      ((decodeValue fl ⟨.header, st, ex⟩ name required r s).found = true ∧ visit s (decodeValue fl ⟨.header, st, ex⟩ name required r s).val = false)) := by
+  unfold validateRespHeader
+  generalize decodeValue fl ⟨.header, st, ex⟩ name required r s = o at h ⊢
+  obtain ⟨v, f, e⟩ := o
+  simp only at h
+  subst h
+  cases f <;> cases required <;> cases hv : visit s v <;> simp [hv]
+
+/-- a decode error is reported with its kind -/
+theorem respHeader_error (fl : Flavour) (visit : Sch → Val → Bool) (name : Str) (st : Sty) (ex required : Bool) (r : Req) (s : Sch) (e : DErr)
+    (h : (decodeValue fl ⟨.header, st, ex⟩ name required r s).err = some e) :
+    validateRespHeader fl visit name st ex required r s = errVerdict e := by
+  simp [validateRespHeader, h]
+
+/-- an absent response header: missing iff required, for every leaf schema and both explode settings -/
+theorem respHeader_absent (fl : Flavour) (visit : Sch → Val → Bool) (name : Str) (ex required : Bool) (l : Leaf) :
+    validateRespHeader fl visit name .simple ex required {} (.leaf l) = if required then .missing else .accept := by
+  cases l <;> cases required <;>
+    simp [validateRespHeader, decodeValue, decodeLeaf, headerPrim, headerArr, headerObj, headerRaw, headerFound]
+
+/-- a response header that is present with an empty value decodes to nil and is validated as null: every primitive
+or array schema rejects it (the request side answers `empty`, or accepts under allowEmptyValue) -/
+theorem respHeader_empty_value_rejected (fl : Flavour) (hit arrEq : EV → PV → Bool) (name : Str) (ex required : Bool) (l : Leaf)
+    (hl : (∃ ps, l = .prim ps) ∨ (∃ it mn mx en, l = .arr it mn mx en)) (hp : fl.prim = parsePrim ∨ fl.prim = specPrim) :
+    validateRespHeader fl (visitSch hit arrEq) name .simple ex required { header := some [[]] } (.leaf l) = .schema := by
+  have hnil : fl.prim = parsePrim := by
+    rcases hp with h | h
+    · exact h
+    · rw [h, specPrim_eq_parsePrim]
+  rcases hl with ⟨ps, rfl⟩ | ⟨it, mn, mx, en, rfl⟩
+  · simp [validateRespHeader, decodeValue, decodeLeaf, headerPrim, headerRaw, hnil, parsePrim, primOut, visitSch, visitLeaf]
+  · simp [validateRespHeader, decodeValue, decodeLeaf, headerArr, headerRaw, hnil, splitOn, splitS, parseArr, parsePrim, arrOut,
+      visitSch, visitLeaf]
+
+/-- a header that is present and decodes to a value is judged exactly as the request-side header parameter with the same
+schema: one decoder, one schema check -/
+theorem respHeader_eq_param (name : Str) (st : Sty) (ex required ae : Bool) (r : Req) (s : Sch)
+    (hf : (decodeValue impl ⟨.header, st, ex⟩ name required r s).found = true)
+    (hn : (decodeValue impl ⟨.header, st, ex⟩ name required r s).val.isNilValue = false) :
+    respHeaderImpl name st ex required r s = validateParameter ⟨⟨.header, st, ex⟩, name, required, ae, s⟩ r := by
+  unfold respHeaderImpl validateRespHeader validateParameter decide' decodeStyled
+  simp only [earlyAbsent, Bool.false_eq_true, if_false, hf, hn, Bool.not_true, Bool.and_false, if_true]
+
+/-- code = specification for response headers: every single-leaf schema outside EnumGoType (the decoder-level classes do
+not touch headers) -/
+theorem respHeader_eq_spec_partial (name : Str) (st : Sty) (ex required : Bool) (r : Req) (l : Leaf) (hwf : leafWF l)
+    (hdeep : ∀ sp rq, l ≠ .deep sp rq) (h2 : leafEnumGoType l = false) :
+    respHeaderImpl name st ex required r (.leaf l) = respHeaderSpec name st ex required r (.leaf l) := by
+  unfold respHeaderImpl respHeaderSpec validateRespHeader
+  have hd : decodeLeaf impl ⟨.header, st, ex⟩ name r l = decodeLeaf spec ⟨.header, st, ex⟩ name r l :=
+    decodeLeaf_flavour_partial ⟨.header, st, ex⟩ name r l (by simp [earlyAbsent])
+      (fun sp rq e => absurd e (hdeep sp rq)) (by simp) (by simp) (by simp) (by simp)
+  have hty : TypedVal l (decodeLeaf spec ⟨.header, st, ex⟩ name r l).val :=
+    decodeLeaf_typed spec (by simp [spec, specPrim_eq_parsePrim]) _ name r l hwf
+  simp only [decodeValue, hd, visitSch]
+  rw [visitLeaf_eq l _ hwf h2 hty]
+  rfl
 
 /-! ### witnesses: inside each class the code's verdict differs from the specification's -/
 
@@ -1075,6 +1233,32 @@ theorem query_obj_noprops_witness :
     QueryObjNoProps p2 = true ∧ validateParameter p2 r2 = .missing ∧ validateSpec p2 r2 = .accept ∧
     decodeStyled impl p2.cell p2.name true r2 sch = ⟨.obj [(['k'], .str ['v'])], false, none⟩ ∧
     QueryObjNoProps p3 = false ∧ validateParameter p3 { header := some ["k,v".toList] } = .accept := by
+  decide
+
+/-- F-C05-7 (DeepKeyJunk): `?p[a]=1&p[a]zz=x` against `{a: integer}`, style deepObject. `p[a]zz` is not a key of `p`
+(the specification ignores it and accepts `{a: 1}`); the code reads only its bracket groups, so both keys land on the
+map key "a" and the iteration order of `url.Values` decides which text survives: the model evaluated on the two
+orders gives `{a: 1}` / accept and a ParseError — the same request is accepted or rejected from run to run. A junk key
+alone (`?p[a]zz=5`) is decoded as `p[a]=5`. -/
+theorem deep_key_junk_witness :
+    let sch : Sch := .leaf (.deep [(['a'], .prim { t := .integer })] [])
+    let p : Param := ⟨⟨.query, .deepObject, true⟩, ['p'], false, false, sch⟩
+    let r1 : Req := { query := [("p[a]".toList, [['1']]), ("p[a]zz".toList, [['x']])] }
+    let r2 : Req := { query := [("p[a]zz".toList, [['x']]), ("p[a]".toList, [['1']])] }
+    let r3 : Req := { query := [("p[a]zz".toList, [['5']])] }
+    DeepKeyJunk p r1 = true ∧ validateParameter p r1 = .accept ∧ validateParameter p r2 = .parse ∧
+    validateSpec p r1 = .accept ∧ validateSpec p r2 = .accept ∧
+    (decodeStyled spec p.cell p.name false r2 sch).val = .dobj [(['a'], .p (.int 1))] ∧
+    DeepKeyJunk p r3 = true ∧ (decodeStyled impl p.cell p.name false r3 sch).val = .dobj [(['a'], .p (.int 5))] ∧
+    decodeStyled spec p.cell p.name false r3 sch = absentObj := by
+  decide
+
+/-- well-formed keys are exactly `name[s1]…[sn]`; text after, between or instead of the closing bracket is junk -/
+theorem wellFormedKey_examples :
+    wellFormedKey ['p'] "p[a]".toList = true ∧ wellFormedKey ['p'] "p[o][x]".toList = true ∧
+    wellFormedKey ['p'] "p[a]zz".toList = false ∧ wellFormedKey ['p'] "p[a][".toList = false ∧
+    wellFormedKey ['p'] "p[a]x[b]".toList = false ∧ wellFormedKey ['p'] "p[a]]".toList = false ∧
+    wellFormedKey ['p'] "pq[a]".toList = true ∧ wellFormedKey ['p'] "zz".toList = true := by
   decide
 
 /-- outside the class (some property is declared, or the flag is the code's) `found` is the code's own computation -/
